@@ -96,10 +96,10 @@ def spec(header: dict, kind: str, direction: str, strict: bool, custom: dict, is
                 return "REJECT", f"{n} has the wrong type"
             if ok is None:
                 open_reason = f"{n}: open type question"
-        elif n == "b64":
-            open_reason = "b64 offered to a registry that does not register it"
         elif strict:
             return "REJECT", f"unregistered {n} under strict checking"
+        elif n == "b64" and kind == "jwe":
+            open_reason = "b64 in a JWE header"
     if "crit" in header:
         crit = header["crit"]
         if len(crit) == 0:
@@ -111,7 +111,8 @@ def spec(header: dict, kind: str, direction: str, strict: bool, custom: dict, is
                 open_reason = "crit names an unregistered parameter"
             elif c != "b64" and c not in custom:
                 open_reason = "crit names a standard parameter"
-    if "b64" in header and is7797:
+    if "b64" in header and kind == "jws":
+        # whatever registry and functions are used: "b64 is accompanied by a crit that lists it"
         crit = header.get("crit")
         if not (isinstance(crit, list) and "b64" in crit):
             return "REJECT", "b64 without crit listing it"
@@ -185,8 +186,8 @@ def mutations(kind, alg, custom, is7797, rng, tier):
 
 
 class Cfg:
-    def __init__(self, name, strict, custom, is7797=False):
-        self.name, self.strict, self.custom, self.is7797 = name, strict, custom, is7797
+    def __init__(self, name, strict, custom, is7797=False, plain_registry=False):
+        self.name, self.strict, self.custom, self.is7797, self.plain_registry = name, strict, custom, is7797, plain_registry
 
 
 def configs(kind):
@@ -196,7 +197,12 @@ def configs(kind):
            # the caller re-registers predefined names: kid becomes required, typ must be an int, cty a list
            Cfg("custom-redeclare", True, {"kid": (STR, True), "typ": (INT, False)}), Cfg("custom-redeclare-nonstrict", False, {"cty": (LSTR, True)})]
     if kind == "jws":
-        out += [Cfg("rfc7797", True, {}, True), Cfg("rfc7797-nonstrict", False, {}, True)]
+        out += [Cfg("rfc7797", True, {}, True), Cfg("rfc7797-nonstrict", False, {}, True),
+                # the RFC 7797 functions take "a JWSRegistry": the plain class, lenient or with b64 registered by the caller
+                Cfg("rfc7797-functions-plain-nonstrict-registry", False, {}, True, True),
+                Cfg("rfc7797-functions-plain-registry-b64-registered", True, {"b64": (BOOL, False)}, True, True),
+                Cfg("plain-registry-b64-registered", True, {"b64": (BOOL, False)}),
+                Cfg("plain-nonstrict-registry-b64-registered", False, {"b64": (BOOL, False)})]
     return out
 
 
@@ -221,14 +227,14 @@ def make_registry(kind, cfg: Cfg, allow):
         # the library's own defaults: nothing but the allow-list is passed
         return (j.jws.JWSRegistry if kind == "jws" else j.jwe.JWERegistry)(algorithms=allow)
     if kind == "jws":
-        cls = j.rfc7797.JWSRegistry if cfg.is7797 else j.jws.JWSRegistry
+        cls = j.rfc7797.JWSRegistry if cfg.is7797 and not cfg.plain_registry else j.jws.JWSRegistry
         return cls(header_registry=hr, algorithms=allow, strict_check_header=cfg.strict)
     return j.jwe.JWERegistry(header_registry=hr, algorithms=allow, strict_check_header=cfg.strict)
 
 
 def judge(ctx, desc, header_merged, kind, direction, cfg, alg, o):
     ctx.ev()
-    verdict, why = spec(header_merged, kind, direction, cfg.strict, cfg.custom, cfg.is7797, alg)
+    verdict, why = spec(header_merged, kind, direction, cfg.strict, cfg.custom, cfg.is7797 and not cfg.plain_registry, alg)
     ctx.count("cases")
     ctx.cell(kind, direction, desc["op"], cfg.name, verdict)
     case = {**desc, "header": header_merged, "config": cfg.name}
@@ -241,7 +247,12 @@ def judge(ctx, desc, header_merged, kind, direction, cfg, alg, o):
     ctx.nontrivial(case)
     if verdict == "REJECT":
         ctx.count("spec_reject")
-        if o.ok:
+        if o.ok and desc.get("pos") == "shadowed":
+            ctx.violation(f"mistyped-parameter-hidden-by-the-same-name-in-the-winning-position:{kind}:{direction}",
+                          f"{desc['op']} ({direction}, registry {cfg.name}) succeeded although the {'unprotected' if kind == 'jws' else 'protected'} header holds "
+                          f"{desc.get('mname')}={header_merged.get(desc.get('mname'))!r} ({why}); the same name stands well typed in the "
+                          f"{'protected' if kind == 'jws' else 'per-recipient'} header, which wins when the headers are merged for checking", case)
+        elif o.ok:
             ctx.violation(f"bad-header-accepted:{why.split(' ')[0] if why.startswith('required') else why.replace(desc.get('mname', '~'), '')[:40]}:{direction}@{desc['op']}",
                           f"{desc['op']} ({direction}, {desc.get('pos')}, registry {cfg.name}) succeeded with header {header_merged!r}: {why}", case)
     else:
@@ -249,6 +260,12 @@ def judge(ctx, desc, header_merged, kind, direction, cfg, alg, o):
         if not o.ok:
             ctx.violation(f"good-header-rejected:{o.etype}:{direction}@{desc['op']}:{desc['mutation'].split('=')[0].split(':')[0]}",
                           f"{desc['op']} ({direction}, {desc.get('pos')}, registry {cfg.name}) failed with {o.exc!r} on a header the statement accepts: {header_merged!r}", case)
+
+
+def _crit_names(hdr, *names):
+    """the header's crit mentions one of names (a key picked from a key set adds its kid / skid, which would then satisfy the crit)"""
+    crit = hdr.get("crit")
+    return isinstance(crit, (list, str, dict)) and any(n in crit for n in names)
 
 
 def apply(base: dict, add: dict, delete: list):
@@ -278,8 +295,18 @@ def jws_cases(ctx, rng, cfg: Cfg, alg="HS256"):
         if ctx.tier == "quick" and cfg.name not in ("default", "rfc7797") and rng.random() < 0.5:
             continue
         hdr = apply(base, add, delete)
-        for pos in ("protected", "unprotected", "split"):
-            if pos == "protected":
+        for pos in ("protected", "unprotected", "split", "shadowed"):
+            if pos == "shadowed":
+                # the same name twice: well typed in the protected header (which wins the merge), wrongly typed in the unprotected one --
+                # that header is still a header of this JWS and is handed to the caller as such
+                regd = {**JWS_REG, **{n: t for n, (t, r) in cfg.custom.items()}}
+                bad = {k: v for k, v in add.items() if k in regd and k not in ("alg", "crit", "b64") and type_ok(regd[k], v) is False}
+                if len(bad) != 1 or delete or cfg.is7797:
+                    continue
+                good = {k: copy.deepcopy(VALID_VALUE[regd[k]]) for k in bad}
+                member = {"protected": {**{k: v for k, v in base.items() if k not in bad}, **good}, "header": copy.deepcopy(bad)}
+                ctx.count("shadowed_members")
+            elif pos == "protected":
                 member = {"protected": copy.deepcopy(hdr)}
             elif pos == "unprotected":
                 if "b64" in hdr:
@@ -295,6 +322,12 @@ def jws_cases(ctx, rng, cfg: Cfg, alg="HS256"):
             if pos == "protected":
                 o = call(mod.serialize_compact, copy.deepcopy(hdr), payload, jk, registry=reg)
                 judge(ctx, {**d, "op": ("rfc7797" if cfg.is7797 else "jws") + ".serialize_compact"}, hdr, "jws", "produce", cfg, alg, o)
+                if not isinstance(hdr.get("kid"), str) and isinstance(hdr.get("alg"), str) and "kid" not in cfg.custom and not _crit_names(hdr, "kid"):
+                    # the key comes out of a key set: a header without kid is completed by the library, a kid of the wrong type is still refused
+                    ks = j.KeySet([j.key({**key, "kid": "set-key"})])
+                    o = call(mod.serialize_compact, copy.deepcopy(hdr), payload, ks, registry=reg)
+                    ctx.count("produced_with_key_sets")
+                    judge(ctx, {**d, "op": ("rfc7797" if cfg.is7797 else "jws") + ".serialize_compact[key set]"}, hdr, "jws", "produce", cfg, alg, o)
             o = call(mod.serialize_json, copy.deepcopy(member), payload if not cfg.is7797 else "c15-payload", jk, registry=reg)
             judge(ctx, {**d, "op": ("rfc7797" if cfg.is7797 else "jws") + ".serialize_json[flat]"}, hdr, "jws", "produce", cfg, alg, o)
             if not cfg.is7797:
@@ -382,6 +415,8 @@ def jwe_cases(ctx, rng, cfg: Cfg, alg, enc):
                     exp_hdr = hdr
                     judge(ctx, {**d, "op": "jwe.encrypt_compact"}, exp_hdr, "jwe", "produce", cfg, alg, o)
 
+                key_set = sender_set = None
+
                 def enc_json(cls_name):
                     cls = getattr(j.jwe, cls_name)
                     if pos == "protected":
@@ -394,12 +429,50 @@ def jwe_cases(ctx, rng, cfg: Cfg, alg, enc):
                         # "enc" moved out of the protected header: the library reads it from the protected header only
                         raise LookupError("enc outside protected")
                     obj = cls(copy.deepcopy(prot), pt, unp)
+                    if key_set is not None:
+                        obj.add_recipient(rh)
+                        return j.jwe.encrypt_json(obj, key_set, registry=reg, sender_key=sender_set or jsp)
                     obj.add_recipient(rh, jpub)
                     return j.jwe.encrypt_json(obj, None, registry=reg, sender_key=jsp)
+                key_set = sender_set = None
                 if not (pos != "protected" and ("enc" in add or "zip" in add)):
                     for cls_name in ("FlattenedJSONEncryption", "GeneralJSONEncryption"):
                         o = call(enc_json, cls_name)
                         judge(ctx, {**d, "op": f"jwe.encrypt_json[{cls_name[:4]}]"}, hdr, "jwe", "produce", cfg, alg, o)
+                # the keys come out of key sets: a header without kid / skid is completed by the library, one of the wrong type is still refused
+                if isinstance(hdr.get("alg"), str) and "kid" not in cfg.custom and (mkey in ("kid", "skid") and not isinstance(hdr.get(mkey), str) or rng.random() < 0.05) \
+                        and not isinstance(hdr.get("kid"), str) and not isinstance(hdr.get("skid"), str) and not _crit_names(hdr, "kid", "skid") and "enc" not in add and "zip" not in add:
+                    key_set = j.KeySet([j.key({**gen.public_jwk(rkj), "kid": "set-key"})])
+                    sender_set = j.KeySet([j.key({**skj, "kid": "sender-set-key"})]) if skj else None
+                    ctx.count("produced_with_key_sets")
+                    if pos == "protected":
+                        o = call(j.jwe.encrypt_compact, copy.deepcopy(hdr), pt, key_set, registry=reg, sender_key=sender_set)
+                        judge(ctx, {**d, "op": "jwe.encrypt_compact[key sets]"}, hdr, "jwe", "produce", cfg, alg, o)
+                    for cls_name in ("FlattenedJSONEncryption", "GeneralJSONEncryption"):
+                        o = call(enc_json, cls_name)
+                        judge(ctx, {**d, "op": f"jwe.encrypt_json[{cls_name[:4]},key sets]"}, hdr, "jwe", "produce", cfg, alg, o)
+                    key_set = sender_set = None
+                # the same name twice: wrongly typed in the protected header, well typed in the per-recipient header that wins the merge
+                regd = {**JWE_REG, **{n: t for n, (t, r) in cfg.custom.items()}}
+                if pos == "protected" and len(add) == 1 and not delete and mkey in regd and mkey not in ("alg", "enc", "zip", "crit") and type_ok(regd[mkey], add[mkey]) is False:
+                    good = {mkey: copy.deepcopy(VALID_VALUE[regd[mkey]])}
+                    ctx.count("shadowed_members")
+                    for cls_name in ("FlattenedJSONEncryption", "GeneralJSONEncryption"):
+                        def enc_shadowed():
+                            obj = getattr(j.jwe, cls_name)({k: v for k, v in copy.deepcopy(hdr).items() if k != "alg"}, pt)
+                            obj.add_recipient({"alg": hdr["alg"], **copy.deepcopy(good)}, jpub)
+                            return j.jwe.encrypt_json(obj, None, registry=reg, sender_key=jsp)
+                        o = call(enc_shadowed)
+                        judge(ctx, {**d, "op": f"jwe.encrypt_json[{cls_name[:4]}]", "pos": "shadowed"}, hdr, "jwe", "produce", cfg, alg, o)
+                    try:
+                        b = g.make("flattened", enc, [(alg, rkj, skj)], pt, alg_in="protected", params_in="recipient", extra_protected={k: v for k, v in hdr.items() if k not in ("alg", "enc")})
+                        t = copy.deepcopy(b.token)
+                        t.setdefault("header", {})
+                        t["header"].update(copy.deepcopy(good))
+                        o = call(j.jwe.decrypt_json, t, jpriv, registry=reg, sender_key=jss)
+                        judge(ctx, {**d, "op": "jwe.decrypt_json[flat]", "pos": "shadowed"}, {**t["header"], **b.info["protected"]}, "jwe", "consume", cfg, alg, o)
+                    except (TypeError, ValueError, KeyError, AttributeError):
+                        ctx.count("harness_could_not_build_token")
             # ---- consume: token built by the reference carrying the header
             try:
                 if "enc" in add or "enc" in delete or "zip" in add or ("alg" in add or "alg" in delete):
@@ -471,9 +544,68 @@ def jwe_cases(ctx, rng, cfg: Cfg, alg, enc):
             judge(ctx, {"mutation": f"algspecific:{n}-missing", "pos": "recipient", "alg": alg, "enc": enc, "op": "jwe.decrypt_json[flat]", "mname": n}, merged, "jwe", "consume", cfg, alg, o)
 
 
+def registry_and_algorithms(ctx, rng):
+    """the caller hands over its registry (own header parameters, one of them required) AND an algorithms list: the header rules of that registry
+    still hold -- the required parameter is enforced, the registered one accepted"""
+    j = J.load()
+    from joserfc.registry import HeaderParameter
+    hr = {"tenant": HeaderParameter("tenant", STR, True), "cnum": HeaderParameter("cnum", INT, False)}
+    pt = b"c15 both"
+    oct_jwk = gen.new_oct(128)
+    k = j.key(oct_jwk)
+    hs = gen.new_oct(256)
+    hk, rhk = j.key(hs), RefKey.from_jwk(hs)
+    heads = [("required-missing", {}, "REJECT"), ("required-present", {"tenant": "t1"}, "ACCEPT"), ("optional-mistyped", {"tenant": "t1", "cnum": "7"}, "REJECT"),
+             ("required-mistyped", {"tenant": 5}, "REJECT"), ("all-present", {"tenant": "t1", "cnum": 7}, "ACCEPT")]
+    for name, extra, want in heads:
+        for kind in ("jwe", "jws"):
+            if kind == "jwe":
+                reg = j.jwe.JWERegistry(header_registry=dict(hr), algorithms=["A128KW", "A128GCM"])
+                hdr = {"alg": "A128KW", "enc": "A128GCM", **extra}
+                allow = ["A128KW", "A128GCM"]
+                tok = g.make("compact", "A128GCM", [("A128KW", oct_jwk, None)], pt, extra_protected=extra).token
+                tokf = g.make("flattened", "A128GCM", [("A128KW", oct_jwk, None)], pt, extra_protected=extra, alg_in="protected").token
+
+                def ej():
+                    obj = j.jwe.FlattenedJSONEncryption({k_: v for k_, v in hdr.items() if k_ != "alg"}, pt)
+                    obj.add_recipient({"alg": "A128KW"}, k)
+                    return j.jwe.encrypt_json(obj, None, algorithms=allow, registry=reg)
+                ops = [("jwe.encrypt_compact", "produce", lambda: j.jwe.encrypt_compact(dict(hdr), pt, k, algorithms=allow, registry=reg)),
+                       ("jwe.encrypt_json", "produce", ej),
+                       ("jwt.encode", "produce", lambda: j.jwt.encode(dict(hdr), {"a": 1}, k, algorithms=allow, registry=reg)),
+                       ("jwe.decrypt_compact", "consume", lambda: j.jwe.decrypt_compact(tok, k, algorithms=allow, registry=reg)),
+                       ("jwe.decrypt_json", "consume", lambda: j.jwe.decrypt_json(copy.deepcopy(tokf), k, algorithms=allow, registry=reg))]
+            else:
+                reg = j.jws.JWSRegistry(header_registry=dict(hr), algorithms=["HS256"])
+                hdr = {"alg": "HS256", **extra}
+                allow = ["HS256"]
+                tok = rjws.compact(hdr, pt, rhk)
+                ops = [("jws.serialize_compact", "produce", lambda: j.jws.serialize_compact(dict(hdr), pt, hk, algorithms=allow, registry=reg)),
+                       ("jws.serialize_json", "produce", lambda: j.jws.serialize_json({"protected": dict(hdr)}, pt, hk, algorithms=allow, registry=reg)),
+                       ("jwt.encode", "produce", lambda: j.jwt.encode(dict(hdr), {"a": 1}, hk, algorithms=allow, registry=reg)),
+                       ("jws.deserialize_compact", "consume", lambda: j.jws.deserialize_compact(tok, hk, algorithms=allow, registry=reg))]
+            for op, direction, f in ops:
+                ctx.ev()
+                o = call(f)
+                ctx.count("cases")
+                ctx.count("registry_and_algorithms_cases")
+                ctx.count("spec_reject" if want == "REJECT" else "spec_accept")
+                ctx.cell(kind, direction, op, "registry+algorithms", want)
+                ctx.nontrivial(("both", kind, op, name))
+                case = {"both_registry_and_algorithms": True, "kind": kind, "op": op, "header": hdr, "registry_header_parameters": {"tenant": "str, required", "cnum": "int"}}
+                if want == "REJECT" and o.ok:
+                    ctx.violation(f"registry-header-rules-dropped-when-algorithms-is-also-given:{kind}:bad-header-accepted", f"{op}(..., algorithms={allow}, registry=<registry "
+                                  f"with a required 'tenant' parameter>) succeeded with header {hdr!r} ({name})", case)
+                if want == "ACCEPT" and not o.ok:
+                    ctx.violation(f"registry-header-rules-dropped-when-algorithms-is-also-given:{kind}:good-header-rejected", f"{op}(..., algorithms={allow}, registry=<registry "
+                                  f"that registers 'tenant' and 'cnum'>) failed with {o.exc!r} on header {hdr!r} ({name})", case)
+
+
 def run_shard(ctx):
     J.load()
     rng = ctx.rng
+    if ctx.shard == 1:
+        registry_and_algorithms(ctx, rng)
     work = []
     for cfg in configs("jws"):
         for alg in (["HS256", "ES256"] if ctx.tier == "quick" else ["HS256", "ES256", "RS256", "EdDSA", "PS384"]):
@@ -510,6 +642,8 @@ REQUIRE = [("cases", 4000, "headers judged"), ("spec_accept", 400, "headers the 
 
 def replay(ctx, case):
     J.load()
+    if case.get("both_registry_and_algorithms"):
+        return registry_and_algorithms(ctx, ctx.rng)
     for cfg in configs("jws") + configs("jwe"):
         if cfg.name == case.get("config"):
             if "enc" in case:
